@@ -496,7 +496,7 @@ def main(module, argv=None):
 
         def confirm(item):
             d, vio = item
-            tmo = max(stall * 4, 180)
+            tmo = max(stall * 8, 480)      # generous: a verdict of "hang" must not depend on how loaded the machine is
             if d["variant"] != "asan":
                 # attribute a death on an uninstrumented build by re-running the case under ASan
                 try:
